@@ -4,9 +4,12 @@
 package zzvp
 
 import (
+	"bytes"
 	"encoding/json"
 	"fmt"
 	"os"
+	"os/exec"
+	"path/filepath"
 	"regexp"
 )
 
@@ -200,7 +203,7 @@ func Symbolic() bool { return false }
 
 // Output returns what the target wrote to stdout so far (engine: captured
 // buffer; native: not available).
-func Output() string { return "" }
+func Output() string { return lastOut }
 
 // IntMode lets the engine discharge queries with the mathematical-integer
 // printer whenever its no-wrap interval analysis succeeds (natively a no-op).
@@ -210,3 +213,58 @@ func IntMode(on bool) {}
 // satisfiable (an existential query over the symbolic variables c mentions).
 // Natively it can only report the truth of c under the witness.
 func Exists(c bool) bool { return c }
+
+// Preemptions bounds the number of preemptive context switches explored per
+// path (-1: unbounded). Switches at blocking operations are never bounded.
+func Preemptions(n int) {}
+
+var (
+	runArgs  []string
+	runFiles = map[string]string{}
+	lastOut  string
+	lastErr  string
+)
+
+// SetArgs records the command line for RunMain.
+func SetArgs(args []string) { runArgs = append([]string(nil), args...) }
+
+// SetFile records a file to be created for RunMain.
+func SetFile(path, content string) { runFiles[path] = content }
+
+// RunMain (native): runs the real gophersat binary ($VP_GOPHERSAT_BIN) on the
+// recorded files and arguments; f is ignored.
+func RunMain(f func()) int {
+	bin := os.Getenv("VP_GOPHERSAT_BIN")
+	if bin == "" {
+		panic("zzvp: VP_GOPHERSAT_BIN not set")
+	}
+	dir, err := os.MkdirTemp("", "vpcli")
+	if err != nil {
+		panic(err)
+	}
+	defer os.RemoveAll(dir)
+	for p, c := range runFiles {
+		if err := os.WriteFile(filepath.Join(dir, p), []byte(c), 0644); err != nil {
+			panic(err)
+		}
+	}
+	args := append([]string(nil), runArgs[1:]...)
+	cmd := exec.Command(bin, args...)
+	cmd.Dir = dir
+	var out, errb bytes.Buffer
+	cmd.Stdout = &out
+	cmd.Stderr = &errb
+	runErr := cmd.Run()
+	lastOut, lastErr = out.String(), errb.String()
+	runFiles = map[string]string{}
+	if runErr == nil {
+		return 0
+	}
+	if ee, ok := runErr.(*exec.ExitError); ok {
+		return ee.ExitCode()
+	}
+	return -1
+}
+
+// ErrOutput returns what the last RunMain wrote to standard error.
+func ErrOutput() string { return lastErr }
